@@ -407,4 +407,23 @@ theorem all_deliver : ∃ s, run cH cT cFifo vEvents = some s ∧
 
 end NonVacV
 
+/-! ### the `l-retrieve` recovery IS triggered in ordinary single-channel FIFO runs
+
+  (One might expect it to be dead code without `fifo_skip`.)  Whenever a slot completes out of
+  order it is buffered, and the next `Deliver` iteration of that party asks everybody for the
+  missing slots: sender 0 broadcasts slots 1 and 2, party 2 completes slot 2 first; its next
+  (empty) iteration sends `l-retrieve` for slot 1.  The liveness proofs therefore treat the
+  `l-deliver` path as live (`TotInv`, RbcLiveK.lean). -/
+namespace RetrieveLive
+open Cx
+
+def rEvents : List Event :=
+  [.bcast 0 11 0, .bcast 0 22 0] ++ sends 2 22 ++ echoes 2 22 ++ from3 2 (mk 2 rReady (cH 22)) ++
+  [.tick 2 []]
+
+theorem retrieve_is_sent : (run cH cT cFifo rEvents).map (fun s =>
+    decide ((2, 0, mk 1 lRetrieve lRetrieve) ∈ s.log)) = some true := by decide
+
+end RetrieveLive
+
 end Tmcg.Rbc
